@@ -244,12 +244,22 @@ def check(prop, tier, seed, runs=None, workers=None, wall_cap=None, selftest=Tru
         seen_clauses.add(f["clause"])
         events, n_rep = minimise(sim, f["knobs"], f["events"], f["clause"])
         st = run_replay(sim, f["knobs"], events)
+        nondet = False
         if not st.failures or st.failures[0][0] != f["clause"]:
             events = f["events"]
-            st = run_replay(sim, f["knobs"], events)
+            for _ in range(5):
+                st = run_replay(sim, f["knobs"], events)
+                if st.failures:
+                    break
             if not st.failures:
-                harness_error(f"run {f['run_index']} failed {f['clause']} when generated but not when replayed")
-        clause, msg, detail = st.failures[0]
+                # The harness is deterministic (self-tested), the same events gave a different verdict: the SYSTEM's behaviour
+                # depends on something outside the event list (object addresses, hash order, heap state).  Report what was seen.
+                nondet = True
+        if nondet:
+            clause, msg, detail = f["clause"], f["message"] + "  [NON-DETERMINISTIC: observed in generation, 5 replays of the same events passed - " \
+                "the system's result depends on object addresses / hash order / heap state]", f["detail"]
+        else:
+            clause, msg, detail = st.failures[0]
         matched = findings_mod.match(fl, sim, clause, f["knobs"], events)
         os.makedirs(os.path.join(env.OUT_DIR, "replays"), exist_ok=True)
         path = os.path.join(env.OUT_DIR, "replays", f"{prop}-{seed}-{f['run_index']}.json")
@@ -262,9 +272,13 @@ def check(prop, tier, seed, runs=None, workers=None, wall_cap=None, selftest=Tru
             continue
         # the replay file must reproduce in a fresh process
         cmd = [sys.executable, os.path.join(env.VERIF_DIR, "simkit", "cli.py"), prop, "--replay", path]
-        out = subprocess.run(cmd, capture_output=True, text=True, timeout=600)
-        if out.returncode != 1 or f"clause={clause}" not in out.stdout:
-            harness_error(f"replay {path} does not reproduce in a fresh process (exit {out.returncode}): {out.stdout[-300:]} {out.stderr[-300:]}")
+        out = None if nondet else subprocess.run(cmd, capture_output=True, text=True, timeout=600)
+        if out is not None and out.returncode == 2:
+            harness_error(f"replay {path} failed in a fresh process: {out.stdout[-300:]} {out.stderr[-300:]}")
+        if out is not None and (out.returncode != 1 or f"clause={clause}" not in out.stdout):
+            # same events, different verdict in another process: the system under test is not a function of the event list
+            msg += "  [NON-DETERMINISTIC across processes: a fresh interpreter " + \
+                ("reported another clause" if out.returncode == 1 else "did not reproduce it") + "]"
         violations.append((clause, msg, path, len(events), len(f["events"])))
 
     wall = time.time() - t0
